@@ -54,6 +54,17 @@ def G():
                 faultinj.wrap_class(c, 'host')
         sys.path.insert(0, core.HERE + '/extract')
         import guards
+        # are the Lean tables the translation of the CURRENT source?  (core falls back to the committed baseline
+        # translation when the current one does not carry the proofs; call-site ids are then not comparable)
+        try:
+            cur = guards.generate()
+        except Exception:
+            cur = None
+        try:
+            on_disk = open(core.LEAN + '/' + guards.OUT, encoding='utf-8').read()
+        except OSError:
+            on_disk = ''
+        _G['by_text'] = (cur != on_disk)
         _G.update(hosts=hosts, wrapped=n, tables=guards.tables(), ref={}, base={}, counts={}, by_region={}, unmapped=0, mapped=0,
                   regions={}, catchers={})
     return _G
@@ -501,10 +512,12 @@ def run_impl(case):
     obs['fired'] = rep['fired']
     obs['region'] = rep['region']
     obs['catcher'] = rep['catcher']
+    obs['templates'] = rep.get('templates', [])
     if rep['fired']:
         st = mapped_stack(rep)
         obs['stack'] = st
         obs['raw_stack'] = [[rf, q, list(p) if p else None] for rf, q, p in rep['stack']][:12]
+        obs['raw_stack_full'] = [[rf, q, list(p) if p else None] for rf, q, p in rep['stack']]
         g['mapped' if st is not None else 'unmapped'] += 1
         g['regions'][(rep['region'] or '').split(':')[0]] = g['regions'].get((rep['region'] or '').split(':')[0], 0) + 1
     return obs
@@ -581,8 +594,27 @@ def oracle(case, obs):
 ENTRY_KEY = 'deep/processor/trigger_handler.py:TriggerHandler.trace_call'
 
 
+def text_stack(obs):
+    """[[prog key, text of the call]] innermost first, from the current source's tables ('?' = not a known call)"""
+    tables = G()['tables']
+    out = []
+    for rf, qual, pos in obs.get('raw_stack_full') or []:
+        if rf is None:
+            continue
+        key = rf + ':' + qual
+        site = (tables.get(key) or {'sites': {}})['sites'].get(tuple(pos) if pos else None)
+        out.append([key, site.split(' ', 1)[1] if site and ' ' in site else '?'])
+    return out
+
+
 def model_request(case, obs):
-    if case['kind'] != 'fault' or not obs.get('fired') or obs.get('stack') is None:
+    if case['kind'] != 'fault' or not obs.get('fired'):
+        return None
+    if G()['by_text']:
+        # the model is the baseline translation: resolve by call text, then by the phase of trace_call
+        return {'op': 'resolve_text', 'cls': case['fault']['cls'], 'region': (obs.get('region') or 'other').split(':')[0],
+                'stack': text_stack(obs)}
+    if obs.get('stack') is None:
         return None
     return {'op': 'resolve', 'cls': case['fault']['cls'], 'stack': obs['stack']}
 
@@ -592,6 +624,14 @@ def compare(case, obs, resp):
         return ['model error: ' + resp['error']]
     ver = resp['verdict']
     if ver == 'maybe':
+        return []
+    if 'template' in resp:
+        # comparison by what the catching handler logs (ids of functions / call sites are not comparable)
+        if obs['escaped']:
+            return [f'model: contained (handler says {resp["template"]!r}); implementation: escaped from trace_call']
+        got = (obs.get('templates') or [''])[0]
+        if resp['template'] != got:
+            return [f'model ({resp.get("level")}): the handler that catches says {resp["template"]!r}; implementation: {got!r}']
         return []
     if ver == 'unknown-site':
         return [f'the model does not know the call site {resp["site"]} of {resp["fn"]} (tables and Extracted differ)']
